@@ -1177,6 +1177,10 @@ class unyt_array(np.ndarray):
             return
         this_equiv = equivalence_registry[equivalence](in_place=True)
         if self.has_equivalent(equivalence):
+            if self.units.base_offset and conv_unit.dimensions in this_equiv._dims:
+                # readings on an offset scale (degC, degF): the formulas
+                # multiply, which needs values on the absolute scale
+                self.convert_to_mks()
             this_equiv.convert(self, conv_unit.dimensions, **kwargs)
             self.convert_to_units(conv_unit)
             # set name to None since the semantic meaning has changed
@@ -1212,7 +1216,14 @@ class unyt_array(np.ndarray):
             return self.in_units(conv_unit)
         this_equiv = equivalence_registry[equivalence]()
         if self.has_equivalent(equivalence):
-            new_arr = this_equiv.convert(self, conv_unit.dimensions, **kwargs)
+            # readings on an offset scale (degC, degF): the formulas
+            # multiply, which needs values on the absolute scale
+            src = self
+            if self.units.base_offset:
+                if src.dtype.kind in ("u", "i"):
+                    src = src.astype("float64")
+                src = src.in_mks()
+            new_arr = this_equiv.convert(src, conv_unit.dimensions, **kwargs)
             return new_arr.in_units(conv_unit)
         else:
             raise InvalidUnitEquivalence(equivalence, self.units, unit)
